@@ -36,11 +36,14 @@ TraceCRead ==
       /\ off' = [off EXCEPT ![ev.h] = off[ev.h] + ev.got]
       /\ rpos' = [rpos EXCEPT ![ev.h] = rpos[ev.h] + ev.got]
    /\ UNCHANGED <<lay, ent, cache, ok, half, live>>
+\* an open that failed because the handle's own reader failed (injected): the handle has no entry; nothing shared may change
+TraceCOpenFault == /\ IsEvent("COpenFault") /\ live /\ ev.r # "panic" /\ ent' = [ent EXCEPT ![ev.h] = 0]
+                   /\ UNCHANGED <<lay, off, rpos, cache, ok, half, live>>
 TraceCClose == IsEvent("CClose") /\ live /\ ent' = [ent EXCEPT ![ev.h] = 0] /\ UNCHANGED <<lay, off, rpos, cache, ok, half, live>>
 
 TraceInit == /\ l = 1 /\ live = FALSE /\ lay = <<>> /\ ent = [h \in Handles |-> 0] /\ off = [h \in Handles |-> 0]
              /\ rpos = [h \in Handles |-> 0] /\ cache = <<>> /\ ok = [h \in Handles |-> TRUE] /\ half = [h \in Handles |-> 0]
-TraceNext == TraceReset \/ TraceCStart \/ TraceCOpen \/ TraceCRead \/ TraceCClose
+TraceNext == TraceReset \/ TraceCStart \/ TraceCOpen \/ TraceCOpenFault \/ TraceCRead \/ TraceCClose
 TraceSpec == TraceInit /\ [][TraceNext]_tvars
 \* the model's invariants on the real run: the cache only ever holds the value the bytes determine
 TraceInv == live => (CacheIdempotent /\ PerHandleView)
